@@ -374,20 +374,58 @@ class _Endless(Exception):
     """the run yields without end (more than MAX_OUT values for a flow of at most a dozen)"""
 
 
+MAX_ITERS = 400
+
+
+def _count_iter(self):
+    # a correct Split.run calls iter(flow) once; one that restarts on the container for every block would never end
+    self.iters = getattr(self, "iters", 0) + 1
+    if self.iters > MAX_ITERS:
+        raise _Endless()
+
+
+class _ReList(list):
+    """a list (tests/core/test_split.py hands lists over) that notices being iterated without end"""
+
+    def __iter__(self):
+        _count_iter(self)
+        return list.__iter__(self)
+
+
+class _ReTuple(tuple):
+    def __iter__(self):
+        _count_iter(self)
+        return tuple.__iter__(self)
+
+
+class _ReIterable(object):
+    """a re-iterable object that is neither a list nor a tuple (like a range)"""
+
+    def __init__(self, xs):
+        self._xs = list(xs)
+
+    def __iter__(self):
+        _count_iter(self)
+        return iter(self._xs)
+
+    def __len__(self):
+        return len(self._xs)
+
+
 def _as_flow(flow, k):
-    """the flow as the k-th kind of argument: a list, a one-shot iterator, a tuple, a generator, or a range when
-    the values are consecutive integers (else a list).  tests/core/test_split.py hands lists over."""
+    """the flow as the k-th kind of argument of Split.run: a list, a one-shot iterator, a tuple, a generator, or
+    another re-iterable object"""
     kind = FLOW_KINDS[k % len(FLOW_KINDS)]
     flow = list(flow)
     if kind == "iter":
         return iter(flow)
     if kind == "tuple":
-        return tuple(flow)
+        return _ReTuple(flow)
     if kind == "gen":
         return (x for x in flow)
-    if kind == "range" and flow and all(type(x) is int for x in flow) and flow == list(range(flow[0], flow[0] + len(flow))):
-        return range(flow[0], flow[0] + len(flow))
-    return flow
+    if kind == "range":
+        return _ReIterable(flow)
+    return _ReList(flow)
 
 
 def _drain(gen, out, on_value=None):
@@ -1805,7 +1843,7 @@ def _run_alone(sp, tag, flow, bufsize):
     base = 100 * (tag + 1)
     inner = [_wrap(isp, _mk_el(isp, base + j, log)) for j, isp in enumerate(sp["inner"])]
     out = []
-    _drain(lc.Split(inner, bufsize=bufsize).run(list(flow)), out)
+    _drain(lc.Split(inner, bufsize=bufsize).run(_ReList(flow)), out)
     return canon(out)
 
 
